@@ -279,3 +279,146 @@ Example ex_scalar_old_defect :
   ovalue (file_scalar_old ex_mask ex_ff unpacked ex_g1 (9#2) (16#5) 1 (1#2)) 134 = true /\
   ovalue (file_scalar_old ex_mask ex_ff unpacked ex_g2 (9#2) (16#5) 1 (1#2)) 135 = true.
 Proof. vm_compute. split; reflexivity. Qed.
+
+(** * T7 — the FLOATING-POINT kernel.  Model/TrilinearFloat.v is an executable model of ROMS.trilinear over Coq's
+    primitive binary64 floats with exactly the kernel's operation order (one rounding per operation, no fused
+    multiply-add — established bit for bit against the compiled kernel by Corr/C02F.v on every run).  Proved with
+    Flocq through Prim2B: the model IS the IEEE-754 computation; its result differs from the exact convex combination
+    of the eight node values by at most delta M = 11 * 2^-53 * M + 7 * 2^-1075 (M = largest node magnitude, no
+    overflow: M <= 2^1000; underflow included), hence lies in [min - delta, max + delta]: the convex-combination
+    clause holds for the arithmetic the code really performs, up to delta; the fractional parts p = X - int(X) the
+    kernel forms are EXACT (Sterbenz) and in [0, 1); the bit-pattern decoder of the correspondence agrees with Flocq's
+    b64_of_bits; and a case accepted by the checker satisfies all of this (check_case_sound).  Depends on Coq's
+    primitive floats / integers and their standard-library specification (FloatAxioms, Uint63) in addition to the
+    real-number axioms. *)
+From Coq Require Import ZArith Reals.
+From Coq Require Floats.
+From Flocq Require Import Core BinarySingleNaN.
+From Flocq Require IEEE754.PrimFloat IEEE754.Binary IEEE754.Bits.
+From Ladim Require Import Model.TrilinearFloat Proofs.TrilinearFloatProofs Proofs.C02FSound.
+Import Flocq.IEEE754.PrimFloat.
+Section T7.
+Local Open Scope R_scope.
+Theorem C02_trilinear_f_is_IEEE :
+  forall a p q d00 u00 d01 u01 d10 u10 d11 u11 : pfloat,
+  Prim2B (trilinear_f a p q d00 u00 d01 u01 d10 u10 d11 u11) =
+  trilinear_B (Prim2B a) (Prim2B p) (Prim2B q) (Prim2B d00) (Prim2B u00) (Prim2B d01) 
+    (Prim2B u01) (Prim2B d10) (Prim2B u10) (Prim2B d11) (Prim2B u11).
+Proof. exact trilinear_f_is_IEEE. Qed.
+Print Assumptions C02_trilinear_f_is_IEEE.
+
+Theorem C02_trilinear_f_error :
+  forall (a p q d00 u00 d01 u01 d10 u10 d11 u11 : pfloat) (M : R),
+  fin a ->
+  fin p ->
+  fin q ->
+  fin d00 ->
+  fin u00 ->
+  fin d01 ->
+  fin u01 ->
+  fin d10 ->
+  fin u10 ->
+  fin d11 ->
+  fin u11 ->
+  0 <= FR a <= 1 ->
+  0 <= FR p <= 1 ->
+  0 <= FR q <= 1 ->
+  Rabs (FR d00) <= M ->
+  Rabs (FR u00) <= M ->
+  Rabs (FR d01) <= M ->
+  Rabs (FR u01) <= M ->
+  Rabs (FR d10) <= M ->
+  Rabs (FR u10) <= M ->
+  Rabs (FR d11) <= M ->
+  Rabs (FR u11) <= M ->
+  M <= bpow radix2 1000 ->
+  fin (trilinear_f a p q d00 u00 d01 u01 d10 u10 d11 u11) /\
+  Rabs
+    (FR (trilinear_f a p q d00 u00 d01 u01 d10 u10 d11 u11) -
+     trilinear_R (FR a) (FR p) (FR q) (FR d00) (FR u00) (FR d01) (FR u01) (FR d10) (FR u10) (FR d11) (FR u11)) <=
+  delta M.
+Proof. exact trilinear_f_error. Qed.
+Print Assumptions C02_trilinear_f_error.
+
+Theorem C02_trilinear_f_within_min_max :
+  forall a p q d00 u00 d01 u01 d10 u10 d11 u11 : pfloat,
+  fin a ->
+  fin p ->
+  fin q ->
+  fin d00 ->
+  fin u00 ->
+  fin d01 ->
+  fin u01 ->
+  fin d10 ->
+  fin u10 ->
+  fin d11 ->
+  fin u11 ->
+  0 <= FR a <= 1 ->
+  0 <= FR p <= 1 ->
+  0 <= FR q <= 1 ->
+  let M := maxabs8 (FR d00) (FR u00) (FR d01) (FR u01) (FR d10) (FR u10) (FR d11) (FR u11) in
+  M <= bpow radix2 1000 ->
+  fin (trilinear_f a p q d00 u00 d01 u01 d10 u10 d11 u11) /\
+  min8 (FR d00) (FR u00) (FR d01) (FR u01) (FR d10) (FR u10) (FR d11) (FR u11) - delta M <=
+  FR (trilinear_f a p q d00 u00 d01 u01 d10 u10 d11 u11) <=
+  max8 (FR d00) (FR u00) (FR d01) (FR u01) (FR d10) (FR u10) (FR d11) (FR u11) + delta M.
+Proof. exact trilinear_f_within_min_max. Qed.
+Print Assumptions C02_trilinear_f_within_min_max.
+
+Theorem C02_frac_f_exact :
+  forall (x : pfloat) (i : Z),
+  fin x ->
+  0 <= FR x < bpow radix2 52 ->
+  IZR i <= FR x < IZR i + 1 -> fin (frac_f x i) /\ FR (frac_f x i) = FR x - IZR i /\ 0 <= FR (frac_f x i) < 1.
+Proof. exact frac_f_exact. Qed.
+Print Assumptions C02_frac_f_exact.
+
+Theorem C02_float_of_bits_correct :
+  forall z : Z, (0 <= z < 2 ^ 64)%Z -> Prim2B (float_of_bits z) = Flocq.IEEE754.Binary.B2BSN 53 1024 (Bits.b64_of_bits z).
+Proof. exact float_of_bits_correct. Qed.
+Print Assumptions C02_float_of_bits_correct.
+
+Theorem C02_kernel_f_error_checked :
+  forall (X : pfloat) (i : Z) (Y : pfloat) (j : Z) (a d00 u00 d01 u01 d10 u10 d11 u11 m : pfloat),
+  kernel_ok X i Y j a d00 u00 d01 u01 d10 u10 d11 u11 m = true ->
+  let r := kernel_f X i Y j a d00 u00 d01 u01 d10 u10 d11 u11 in
+  fin r /\
+  Rabs
+    (FR r -
+     trilinear_R (FR a) (FR X - IZR i) (FR Y - IZR j) (FR d00) (FR u00) (FR d01) (FR u01) 
+       (FR d10) (FR u10) (FR d11) (FR u11)) <= delta (FR m) /\
+  min8 (FR d00) (FR u00) (FR d01) (FR u01) (FR d10) (FR u10) (FR d11) (FR u11) - delta (FR m) <= 
+  FR r <= max8 (FR d00) (FR u00) (FR d01) (FR u01) (FR d10) (FR u10) (FR d11) (FR u11) + delta (FR m).
+Proof. exact kernel_f_error_checked. Qed.
+Print Assumptions C02_kernel_f_error_checked.
+
+Theorem C02_check_case_sound :
+  forall xb i yb j ab d00 u00 d01 u01 d10 u10 d11 u11 mb rb : Z,
+  C02F.check_case
+    (xb :: i :: yb :: j :: ab :: d00 :: u00 :: d01 :: u01 :: d10 :: u10 :: d11 :: u11 :: mb :: rb :: nil) =
+  true ->
+  let X := float_of_bits xb in
+  let Y := float_of_bits yb in
+  let A := float_of_bits ab in
+  let D00 := float_of_bits d00 in
+  let U00 := float_of_bits u00 in
+  let D01 := float_of_bits d01 in
+  let U01 := float_of_bits u01 in
+  let D10 := float_of_bits d10 in
+  let U10 := float_of_bits u10 in
+  let D11 := float_of_bits d11 in
+  let U11 := float_of_bits u11 in
+  let M := float_of_bits mb in
+  let observed := float_of_bits rb in
+  observed = kernel_f X i Y j A D00 U00 D01 U01 D10 U10 D11 U11 /\
+  fin observed /\
+  Rabs
+    (FR observed -
+     trilinear_R (FR A) (FR X - IZR i) (FR Y - IZR j) (FR D00) (FR U00) (FR D01) (FR U01) 
+       (FR D10) (FR U10) (FR D11) (FR U11)) <= delta (FR M) /\
+  min8 (FR D00) (FR U00) (FR D01) (FR U01) (FR D10) (FR U10) (FR D11) (FR U11) - delta (FR M) <=
+  FR observed <= max8 (FR D00) (FR U00) (FR D01) (FR U01) (FR D10) (FR U10) (FR D11) (FR U11) + delta (FR M).
+Proof. exact check_case_sound. Qed.
+Print Assumptions C02_check_case_sound.
+
+End T7.
